@@ -5,7 +5,7 @@ package main
 //	R <static opcode names>                 Allopcodes at process start
 //	F lq=<idx list|-> flopoco=<0|1> fams=…  family configuration of this process
 //	CASE <i> <bm|mach> <tag>
-//	L.B / X.B  rsize= ndom= procs=<n>:… inputs= outputs= iin=<n>:k.r.e;… iout=… links=<n>:… sos=<n>:<so>;… slinks=<n>:a.b|… deep=<sha1>
+//	L.B / X.B  rsize= ndom= procs=<n>:… inputs= outputs= iin=<n>:k.r.e;… iout=… links=<n>:… sos=<n>:<so>;… slinks=<n>:a.b|…  (or slinks=nil) deep=<sha1>
 //	L.D / X.D <k> modes=<n>:… cpid= rsize= r= n= m= ops=<n>:<name>/<kind>,… thr= hdl= o= l= sc= tag= ws= slocs=<n>:… vars=<n>:… [deep=<sha1>]
 //	J.B  rsize= ndom= procs= inputs= outputs= iin= iout= links= sos=<n>:<string>;… slinks=
 //	J.D <k> modes= rsize= ws= r= n= m= l= o= sc= op=<n>:… slocs= vars= thr=
@@ -117,6 +117,14 @@ func bonds(bs []bondmachine.Bond) []string {
 	return r
 }
 
+// slinksField: the nil slice is visible (Init looks at exactly that)
+func slinksField(sl []bondmachine.Shared_instance_list) string {
+	if sl == nil {
+		return "nil"
+	}
+	return lst(slinks(sl), "|")
+}
+
 func slinks(sl []bondmachine.Shared_instance_list) []string {
 	r := make([]string, len(sl))
 	for i, l := range sl {
@@ -189,7 +197,7 @@ func dumpBMLive(p string, bm *bondmachine.Bondmachine) (nilops, nilsos int) {
 	out.Line("%s.B rsize=%d ndom=%d procs=%s inputs=%d outputs=%d iin=%s iout=%s links=%s sos=%s slinks=%s deep=%s",
 		p, bm.Rsize, len(bm.Domains), lst(ints(bm.Processors), ","), bm.Inputs, bm.Outputs,
 		lst(bonds(bm.Internal_inputs), ";"), lst(bonds(bm.Internal_outputs), ";"), lst(ints(bm.Links), ","),
-		lst(sos, ";"), lst(slinks(bm.Shared_links), "|"), hash(deepDumpBM(bm)))
+		lst(sos, ";"), slinksField(bm.Shared_links), hash(deepDumpBM(bm)))
 	for k, d := range bm.Domains {
 		if d == nil {
 			out.Line("%s.D %d nil", p, k)
@@ -204,7 +212,7 @@ func dumpBMJson(j *bondmachine.Bondmachine_json) {
 	out.Line("J.B rsize=%d ndom=%d procs=%s inputs=%d outputs=%d iin=%s iout=%s links=%s sos=%s slinks=%s",
 		j.Rsize, len(j.Domains), lst(ints(j.Processors), ","), j.Inputs, j.Outputs,
 		lst(bonds(j.Internal_inputs), ";"), lst(bonds(j.Internal_outputs), ";"), lst(ints(j.Links), ","),
-		lst(encs(j.Shared_objects), ";"), lst(slinks(j.Shared_links), "|"))
+		lst(encs(j.Shared_objects), ";"), slinksField(j.Shared_links))
 	for k, d := range j.Domains {
 		if d == nil {
 			out.Line("J.D %d nil", k)
